@@ -120,6 +120,18 @@ def run_unit(unit, tier, seed):
         res.bounded = unit.bounded(rng, 'thorough' if deep else tier)
         if deep and isinstance(res.bounded, dict):
             res.bounded['bound'] = (res.bounded.get('bound') or '') + ' [thorough-tier domain: the proof part was undecided]'
+        if tier == 'thorough' and isinstance(res.bounded, dict) and not res.bounded.get('failures'):
+            # thorough tier: the seeded parts of the bounded stand-in are repeated with two more seeds
+            extra = 0
+            for k in (1, 2):
+                more = unit.bounded(random.Random(seed + 1000 * k), tier)
+                if isinstance(more, dict):
+                    extra += more.get('evaluations', 0)
+                    if more.get('failures'):
+                        res.bounded['failures'] = more['failures']
+                        break
+            res.bounded['evaluations'] = res.bounded.get('evaluations', 0) + extra
+            res.bounded['bound'] = (res.bounded.get('bound') or '') + ' [x3 seeds]'
     except Exception as e:
         res.errors.append('bounded stand-in crashed: %s\n%s' % (e, traceback.format_exc()))
     res.wall = time.time() - t0
